@@ -2,6 +2,7 @@
 package c03
 
 import (
+	"fmt"
 	"verif/harness/internal/core"
 	"verif/harness/internal/pxy"
 )
@@ -31,6 +32,31 @@ func (P) Gen(r *core.Rand, tier string, emit func([]string)) {
 	prt := pxy.Profile{Faults: true, Tunnels: true}
 	for i := 0; i < n/3; i++ {
 		emit(pxy.GenCase(r, prt))
+	}
+	// exhaustive: every truncation offset of a Content-Length and of a chunked response (inside the
+	// head -> 502, inside the framed body -> incomplete + close), each followed by a second request
+	bodies := []int{40}
+	if tier == "thorough" {
+		bodies = []int{1, 40, 400}
+	}
+	for _, ob := range bodies {
+		for _, of := range []string{"cl", "ch"} {
+			second := "x m=GET tf=abs rc=0 hs=7 hdr=1 ohdr=1 rb=0 rf=cl rq=pass rs=pass o=ok st=200 ob=12 of=cl oc=0 gz=0 rcl=0"
+			for k := 1; k < 90; k++ { // the head of these scripted responses is 60..90 bytes; k is clamped inside it
+				emit([]string{"conn mode=seq listener=plain shutdown=0",
+					fmt.Sprintf("x m=GET tf=abs rc=0 hs=3 hdr=1 ohdr=1 rb=0 rf=cl rq=pass rs=pass o=fail fk=head k=%d st=200 ob=%d of=%s oc=0 gz=0 rcl=0", k, ob, of),
+					second, "end"})
+			}
+			framed := ob
+			if of == "ch" {
+				framed = ob + 12 // chunk-size lines and the last-chunk: cut inside the framing too
+			}
+			for k := 0; k < framed; k++ {
+				emit([]string{"conn mode=seq listener=plain shutdown=0",
+					fmt.Sprintf("x m=GET tf=abs rc=0 hs=3 hdr=1 ohdr=1 rb=0 rf=cl rq=pass rs=pass o=trunc k=%d st=200 ob=%d of=%s oc=0 gz=0 rcl=0", k, ob, of),
+					second, "end"})
+			}
+		}
 	}
 	seeds := []string{"GET / HTTP/1.1\r\n\r\n", "GET http://[::1 HTTP/1.1\r\nHost: x\r\n\r\n", "POST / HTTP/1.1\r\nContent-Length: -1\r\n\r\n", "CONNECT HTTP/1.1\r\n\r\n",
 		"GET / HTTP/1.1\r\nTransfer-Encoding: chunked\r\n\r\nZZ\r\n", "\x16\x03\x01\x02\x00\x01\x00\x01\xfc\x03\x03", "PRI * HTTP/2.0\r\n\r\nSM\r\n\r\n", "GET / HTTP/9.9\r\nHost: a\r\n\r\n",
